@@ -168,7 +168,7 @@ def canon_of(t, stub, ns_extra=None, opaque_td=False):
             return oracle.canon(type(None))
         if hasattr(x, "__supertype__"):
             return ("NewType", x.__name__)
-        o = typing.get_origin(x)
+        o = oracle.origin(x)
         if o is Union:
             ms = set()
             for m in typing.get_args(x):
